@@ -159,15 +159,27 @@ def flag_table(col: Collector, con: str, rel: str, root: Node, cmds: List[Cmd]):
     if len(cases) != 1 or cases[0].subject.strip('"') != f"${var}":
         raise AnalysisError(f"{rel}: getopts loop body is not a single `case \"${var}\"`")
     table = {}
-    for pats, body in cases[0].arms:
-        acts = []
-        for ch in body.children:
+    funcs = {n.words[0]: n.body for n in root.children if n.kind == "funcdef"}
+
+    def flatten(lst, depth=0):
+        out_ = []
+        for ch in lst.children:
             if ch.kind != "simple":
-                acts.append(f"<{ch.kind}>")
+                out_.append(f"<{ch.kind}>")
             elif ch.assignments and not ch.name:
-                acts += [f"{k}={v.strip(chr(34))}" for k, v in ch.assignments]
+                out_ += [f"{k}={v.strip(chr(34))}" for k, v in ch.assignments]
+            elif ch.name in funcs and depth < 3:
+                out_ += flatten(funcs[ch.name], depth + 1)       # a script-defined helper runs inline
+            elif ch.name in ("echo", "printf"):
+                continue                                         # messages do not change what the arm does
             else:
-                acts.append(ch.text())
+                out_.append(ch.text())
+        return out_
+
+    for pats, body in cases[0].arms:
+        acts = flatten(body)
+        if False:
+            pass
         for p in pats:
             table[p] = acts
     want = {"d": ["input_method=cmd", "input_file=$OPTARG"], "c": ["run=0"], "r": ["compile=0"], "o": ["output_dir=$OPTARG"], "?": ["exit 10"]}
@@ -194,7 +206,7 @@ def flag_table(col: Collector, con: str, rel: str, root: Node, cmds: List[Cmd]):
     col.add("C16.R3", con, "shift-after-options", sh_ok, "`shift $((OPTIND-1))` must follow the option loop", f"{rel}:{top[0].node.line if top else 0}")
     stray = [c for c in top if c.node.name == "exit" and c.node.args == ["1"] and
              any(re.sub(r"\s+", "", gt) in ("[$#!=0]", "[$#-ne0]", "[$#-gt0]") and tr for gt, tr in c.guards)]
-    col.add("C16.R3", con, "stray-arguments-exit-1", len(stray) == 1 and len(stray[0].guards) == 1,
+    col.add("C16.R3", con, "stray-arguments-exit-1", len(stray) == 1 and all(g[0].startswith("call ") or re.sub(r"\s+", "", g[0]) in ("[$#!=0]", "[$#-ne0]", "[$#-gt0]") for g in stray[0].guards),
             "remaining arguments after the options must `exit 1`", rel)
     return {k: tuple(v) for k, v in table.items()} | {"optstring": optstring}
 
